@@ -22,8 +22,7 @@ TRUSTED = ['model lean/TboxModel/C18/Model.lean hand-written from modules/corout
            '(real ucontext switches, real epoll loop; one op line per loop iteration)',
            'ucontext switching (makecontext/swapcontext) and Cabinet token validity (ids never reissued; C08) are trusted',
            'the harness runs without sanitizers (plain flavour): raw memory safety of the coroutine stacks is not observed']
-ASSUMPTIONS = ['no routine is created while Scheduler::cleanup() iterates the cabinet (Cabinet::foreach over a growing vector)',
-               'routine scripts are finite; main-context calls happen between loop passes',
+ASSUMPTIONS = ['routine scripts are finite; main-context calls happen between loop passes',
                'Cabinet ids do not wrap around (2^64 creations)']
 RULE = ('op files = script definitions + main-context ops (new/resume/cancel/cleanup/pass), each followed by one pass of the real event loop; '
         'scripts have NO retry loops, so a missed wake-up leaves a routine visibly blocked in the per-pass summary; non-trivial = at least two '
@@ -84,7 +83,7 @@ def gen_case(rng):
 
 def gen_backtoback(rng):
     """>= 2 waiters, then back-to-back posts by one routine; or a holder that re-acquires before the woken waiter runs"""
-    kind = rng.choice(['ch', 'sm', 'mx', 'mx2', 'bc', 'rewait', 'join', 'join', 'cond'])
+    kind = rng.choice(['ch', 'sm', 'mx', 'mx2', 'bc', 'rewait', 'join', 'join', 'cond', 'crcl', 'crcl'])
     c = rng.randrange(PR)
     nw = rng.choice([2, 2, 3, 4])
     ops = []
@@ -109,6 +108,13 @@ def gen_backtoback(rng):
         ny = rng.choice([1, 2, 3])
         ops += ['def 0 ' + ','.join(['y'] * ny), 'def %d j0,s%d:5' % (rng.randrange(2), c), 'def 0 j0,j1,r%d' % c]
         ops += ['new 0 1', 'new 1 1', 'new 2 1'] + ['pass'] * (ny + 3)
+    elif kind == 'crcl':
+        # create() from a routine that is being cleaned up (its blocking call fails, then it creates); 1, 2 or 4 routines
+        # fill the cabinet's vector exactly, so an accepted create would reallocate under Cabinet::foreach
+        blk = rng.choice(['r%d' % c, 'l%d' % c, 'a0', 'b%d' % c, 'w', 'j0'])
+        ops += ['def 0 ' + rng.choice(['-', 'r%d' % c, 'y,s%d:3' % c]), 'def 0 %s,%s' % (blk, rng.choice(['n0', 'N0', 'n0,n0'])), 'def 0 l%d,%s' % (c, blk)]
+        ops += ['new 2 1'] + ['new 1 1'] * rng.choice([1, 1, 3, 3, 2]) + ['pass', 'cleanup', 'pass', 'new 1 1', 'pass', 'cleanup']
+        return ops
     elif kind == 'cond':
         k = rng.randrange(PR)
         ops += ['def 0 ca%d:1,ca%d:2,cw%d,s%d:9' % (k, k, k, c), 'def 0 cp%d:1,y,cp%d:2' % (k, k), 'def 0 cw%d' % k]
